@@ -98,6 +98,9 @@ def check_domain(d, how, full=True):
         pr.append(('stale', '%s: dk=%.17g but fresh Domain(length=%d, dr=%r) has dk=%.17g' % (how, d.dk, L, d.dr, F.dk)))
     if pr:
         return pr
+    # another Domain of the same length and a different spacing is constructed now and stays alive while d is used
+    decoy = D(length=L, dr=d.dr * 1.37)
+    decoy.to_fourier(np.ones(L))
     vs = probe_vectors(L) if full else probe_vectors(L)[-4:]
     outs = {}
     for nm, v in vs:
@@ -288,6 +291,17 @@ def case_marray(rec, case):
         fn = d.MatrixArray_to_fourier if direction == 'to_fourier' else d.MatrixArray_to_real
         one = d.to_fourier if direction == 'to_fourier' else d.to_real
         M = sym_marray(rank, L, src, salt=case.get('salt', 0))
+        layout = case.get('layout', 'C')
+        if layout != 'C' and rank >= 2:
+            # the same numbers in an array the caller allocated differently (Fortran order / a sub-block of a larger array)
+            import pyPRISM as _P
+            if layout == 'F':
+                dat = np.asfortranarray(M.data)
+            else:
+                big = np.zeros((L, rank + 1, rank + 2))
+                big[:, :rank, :rank] = M.data
+                dat = big[:, :rank, :rank]
+            M = _P.MatrixArray(length=L, rank=rank, data=dat, space=src)
         orig = M.data.copy()
         try:
             ret = fn(M)
@@ -442,8 +456,12 @@ def run(rec, tier, seed):
             for L in lens:
                 for dom in (['dr', 0.1], ['dk', 0.05]):
                     case_marray(rec, {'kind': 'marray', 'rank': rank, 'length': L, 'dom': dom})
+                if rank >= 2:
+                    for layout in ('F', 'block'):
+                        case_marray(rec, {'kind': 'marray', 'rank': rank, 'length': L, 'dom': ['dr', 0.1], 'layout': layout})
     rec.note('alphabets', {'lengths': [1, maxlen], 'spacings': SPACINGS + extra, 'constructors': ['dr', 'dk'],
-                           'setter_ops': SET_OPS, 'starts': STARTS})
+                           'setter_ops': SET_OPS, 'starts': STARTS,
+                           'matrixarray_data_layouts': ['C (allocated by the class)', 'Fortran order', 'sub-block of a larger array']})
     rec.note('bounds', {'bfs_depth': bdepth, 'undeduplicated_sequence_depth': sdepth})
     rec.sample({'kind': 'grid', 'length': 100, 'by': 'dr', 'h': 0.1})
     rec.sample({'kind': 'hist', 'start': ['dr', 0.1, 16], 'ops': [['length', 100], ['dk', 0.2]]})
